@@ -9,7 +9,7 @@ CONSTANTS
   EventShapes <- ES_big
   EvNames <- N2
   Listeners <- L5
-  SubmitKinds <- K4
+  SubmitKinds <- K5
   Loose = FALSE
   Dev <- NoDev
   AllowLose = TRUE
